@@ -474,3 +474,35 @@ func TestVerifC06(t *testing.T) {
 	}
 	lfExploreAll(scs)
 }
+
+// TestVerifC06Overlap is the second part of C06, built with the sync shims (variant
+// actor-life1-instr): the racing-pair scenarios are explored again without the stop-lock
+// predictor, i.e. including every order in which a second stop operation starts while the first one
+// is parked inside PostStop and queues on PID.stopLocker. Oracle unchanged.
+func TestVerifC06Overlap(t *testing.T) {
+	defer vsched.Finish(t)
+	r := vsched.Rep()
+	if !lfMutexDurable {
+		r.Note("TestVerifC06Overlap needs the instrumented variant (mutex waits must be durable); nothing explored")
+		return
+	}
+	r.Assumption("instrumented part: sync/atomic shims are only used to make mutex waits durable in the bubble; no sync-level preemption is explored")
+	var scs []vsched.Scenario
+	for _, sc := range c06Scenarios() {
+		if !strings.HasPrefix(sc.name, "pair/") {
+			continue
+		}
+		// the supervisor Stop directive starts asynchronously (supervision goroutine -> parent's turn) in
+		// the same step in which the failing handler's successor message is dispatched; with the shims'
+		// extra wake-ups the order of those two log entries is not reproducible, so these pairs stay in
+		// the un-instrumented part only
+		if strings.Contains(sc.name, "supervisor-stop") {
+			continue
+		}
+		scs = append(scs, vsched.Scenario{
+			Cfg: vsched.Config{Scenario: "c06-overlap/" + strings.TrimPrefix(sc.name, "pair/"), Bound: 0, Params: map[string]any{"stop_path": sc.path, "stop_lock_predictor": false}},
+			Run: c06Run(t, sc),
+		})
+	}
+	lfExploreAll(scs)
+}
